@@ -79,16 +79,23 @@ def wire(req):
     return out
 
 
+KEEPALIVE_SPELLINGS = [b'keep-alive', b'Keep-Alive', b'KEEP-ALIVE', b'keep-Alive']
+CLOSE_SPELLINGS = [b'close', b'Close', b'CLOSE']
+CONNECTION_NAMES = [b'Connection', b'Connection', b'connection', b'CONNECTION']
+
+
 def mk_request(rng, target, host, *, method=None, keepalive=True, body_kind=None, version=b'HTTP/1.1'):
     method = method or rng.choice([b'GET', b'GET', b'GET', b'POST', b'PUT', b'DELETE'])
     hdrs = [[rng.choice([b'Host', b'host', b'HOST']), host]]
     extra = [[b'User-Agent', b'curl/8.0'], [b'Accept', b'*/*'], [b'X-Trace', b'a:b c'], [b'Proxy-Connection', b'keep-alive'],
-             [b'Cookie', b'k=v; x=y'], [b'X-Empty', b''], [b'Connection', b'keep-alive'], [b'Via', b'1.0 fred'], [b'via', b'1.1 a, 1.1 b']]
+             [b'Cookie', b'k=v; x=y'], [b'X-Empty', b''], [b'Via', b'1.0 fred'], [b'via', b'1.1 a, 1.1 b']]
     for h in rng.sample(extra, rng.randrange(0, 3)):
-        if keepalive or h[0] != b'Connection':
-            hdrs.append(list(h))
+        hdrs.append(list(h))
+    # the Connection header: absent, or any spelling of keep-alive / close
     if not keepalive:
-        hdrs = [h for h in hdrs if h[0] != b'Connection'] + [[b'Connection', b'close']]
+        hdrs.insert(rng.randrange(0, len(hdrs) + 1), [rng.choice(CONNECTION_NAMES), rng.choice(CLOSE_SPELLINGS)])
+    elif rng.random() < 0.45:
+        hdrs.insert(rng.randrange(0, len(hdrs) + 1), [rng.choice(CONNECTION_NAMES), rng.choice(KEEPALIVE_SPELLINGS)])
     body, framing, chunks = b'', 'none', None
     if body_kind is None:
         body_kind = rng.choice(['cl', 'chunked', 'cl0']) if method in (b'POST', b'PUT') else 'none'
@@ -275,6 +282,17 @@ def generate(rng, tier):
     for _ in range(N // 4):
         pl, rq = conversation(rng, 'reverse', 1)
         add('reverse/single', 'reverse', pl, rq)
+    # a request that ends the conversation: Connection: close (any spelling) or HTTP/1.0, first / middle / last
+    for mode in ('forward', 'web', 'web'):
+        for _ in range(N // 5):
+            n = rng.choice([1, 2, 3, 3, 4])
+            pl, rq = conversation(rng, mode, n)
+            i = rng.choice([0, n // 2, n - 1, n - 1])
+            if rng.random() < 0.7:
+                rq[i] = mk_request(rng, rq[i]['target'], rq[i]['hosthdr'], keepalive=False)
+            else:
+                rq[i] = mk_request(rng, rq[i]['target'], rq[i]['hosthdr'], version=b'HTTP/1.0', keepalive=rng.random() < 0.7)
+            add(mode + '/ends-with-close', mode, pl, rq)
     # outside the proved class: the recorded findings
     for _ in range(N // 3):
         pl, rq = conversation(rng, 'forward', rng.choice([2, 3, 4]), same=False)
@@ -417,11 +435,12 @@ class Origin:
         self.emitted = 0
         self.requests = []         # (method, target, body length)
         self.broken = None
+        self.finished = False
         self.cur = None
 
     def feed(self, out):
         h11 = self.h11
-        if self.broken or len(out) == self.fed:
+        if self.broken or self.finished or len(out) == self.fed:
             return
         self.conn.receive_data(out[self.fed:])
         self.fed = len(out)
@@ -443,6 +462,10 @@ class Origin:
                 try:       # tell h11 the exchange is over so that it frames the next request
                     self.conn.send(h11.Response(status_code=200, headers=[('content-length', '0')]))
                     self.conn.send(h11.EndOfMessage())
+                    if self.conn.our_state is h11.MUST_CLOSE:
+                        # Connection: close / HTTP/1.0 without keep-alive: the origin answers this request and
+                        # nothing after it (it would close; we just stop, a close is a separate script op)
+                        self.finished = True; return
                     self.conn.start_next_cycle()
                 except h11.LocalProtocolError as e:
                     self.broken = 'cycle: %s' % e; return
@@ -463,6 +486,8 @@ class Origin:
 
 
 def run_impl(case):
+    if case.get('live'):
+        return dict(live_problem=run_live([case['live']])[case['live']], events=[])
     import sim
     logging.disable(logging.CRITICAL)
     fl = build_flags(case)
@@ -582,6 +607,210 @@ def run_impl(case):
     return out
 
 
+# ----------------------------------------------------------------- live runs through the REAL executor
+# The simulated I/O layer drives HttpProtocolHandler directly: every descriptor the handler is interested in is
+# served.  Whether the Threadless executor (selector registration bookkeeping, acceptor hand-over) keeps serving
+# the descriptors of a connection AFTER its first exchange is outside that layer; these few keep-alive
+# conversations through a real proxy.Proxy on loopback (1 acceptor, 1 threadless worker) against a small threaded
+# origin close that gap: one response per request, in order, from the named origin, connection still open.
+LIVE_TIMEOUT = 4.0
+LIVE_SCENARIOS = ['forward-sequential', 'forward-pipelined', 'forward-one-then-two', 'forward-two-connections',
+                  'web-sequential', 'web-pipelined']
+
+
+class LiveOrigin:
+    """keep-alive origin on loopback: answers every request with a body naming its own port, the method, the
+    path and the request body"""
+    def __init__(self):
+        import socket, threading
+        self.sock = socket.socket(socket.AF_INET, socket.SOCK_STREAM)
+        self.sock.setsockopt(socket.SOL_SOCKET, socket.SO_REUSEADDR, 1)
+        self.sock.bind(('127.0.0.1', 0))
+        self.sock.listen(8)
+        self.sock.settimeout(0.2)
+        self.port = self.sock.getsockname()[1]
+        self.stop = threading.Event()
+        self.seen = []
+        self.thread = threading.Thread(target=self.accept_loop, daemon=True)
+        self.thread.start()
+
+    def accept_loop(self):
+        import socket, threading
+        while not self.stop.is_set():
+            try:
+                conn, _ = self.sock.accept()
+            except socket.timeout:
+                continue
+            except OSError:
+                return
+            threading.Thread(target=self.serve, args=(conn,), daemon=True).start()
+
+    def serve(self, conn):
+        import socket
+        conn.settimeout(0.2)
+        buf = b''
+        try:
+            while not self.stop.is_set():
+                try:
+                    data = conn.recv(65536)
+                except socket.timeout:
+                    continue
+                if not data:
+                    return
+                buf += data
+                while b'\r\n\r\n' in buf:
+                    head, rest = buf.split(b'\r\n\r\n', 1)
+                    lines = head.split(b'\r\n')
+                    clen = 0
+                    for line in lines[1:]:
+                        k, _, v = line.partition(b':')
+                        if k.strip().lower() == b'content-length':
+                            clen = int(v.strip())
+                    if len(rest) < clen:
+                        break
+                    body, buf = rest[:clen], rest[clen:]
+                    method, path, _ = lines[0].split(b' ', 2)
+                    self.seen.append(lines[0])
+                    payload = b'%d %s %s %s' % (self.port, method, path, body)
+                    conn.sendall(b'HTTP/1.1 200 OK\r\nContent-Length: %d\r\n\r\n%s' % (len(payload), payload))
+        except OSError:
+            pass
+        finally:
+            conn.close()
+
+    def close(self):
+        self.stop.set()
+        self.sock.close()
+
+
+def live_read_response(sock, buf):
+    """one Content-Length framed response: (body | None, leftover)"""
+    import time, socket
+    deadline = time.time() + LIVE_TIMEOUT
+    while time.time() < deadline:
+        if b'\r\n\r\n' in buf:
+            head, rest = buf.split(b'\r\n\r\n', 1)
+            clen = 0
+            for line in head.split(b'\r\n')[1:]:
+                k, _, v = line.partition(b':')
+                if k.strip().lower() == b'content-length':
+                    clen = int(v.strip())
+            if len(rest) >= clen:
+                return rest[:clen], rest[clen:]
+        try:
+            data = sock.recv(65536)
+        except socket.timeout:
+            continue
+        except OSError:
+            return None, buf
+        if not data:
+            return None, buf
+        buf += data
+    return None, buf
+
+
+def live_conversation(port, sends, expected):
+    """sends: list of byte strings (one sendall each; after each one all responses it completes are awaited);
+    expected: per send the list of expected bodies.  Returns a problem description or None."""
+    import socket
+    c = socket.create_connection(('127.0.0.1', port), timeout=LIVE_TIMEOUT)
+    c.settimeout(0.3)
+    buf = b''
+    n = 0
+    try:
+        for raw, bodies in zip(sends, expected):
+            c.sendall(raw)
+            for want in bodies:
+                n += 1
+                body, buf = live_read_response(c, buf)
+                if body is None:
+                    return 'request %d on the connection got no response within %.0f s' % (n, LIVE_TIMEOUT)
+                if want is not None and body != want:
+                    return 'request %d answered with %r, expected %r' % (n, body[:80], want[:80])
+        if buf:
+            return 'unexpected extra bytes %r' % buf[:80]
+        # still usable: the connection must not have been closed by the proxy
+        c.settimeout(0.2)
+        try:
+            if c.recv(1) == b'':
+                return 'the proxy closed the keep-alive connection after the conversation'
+        except socket.timeout:
+            pass
+        except OSError as e:
+            return 'connection error after the conversation: %r' % e
+    finally:
+        c.close()
+    return None
+
+
+def live_scenario(name, port, o1, o2):
+    def rq(o, method, path, body=b'', extra=b''):
+        hp = b'127.0.0.1:%d' % o.port
+        h = b'%s http://%s%s HTTP/1.1\r\nHost: %s\r\n%s' % (method, hp, path, hp, extra)
+        if body:
+            h += b'Content-Length: %d\r\n' % len(body)
+        return h + b'\r\n' + body, b'%d %s %s %s' % (o.port, method, path, body)
+    W = b'GET /http-route-example HTTP/1.1\r\nHost: localhost\r\n%s\r\n'
+    if name == 'forward-sequential':
+        r = [rq(o1, b'GET', b'/one'), rq(o1, b'POST', b'/two', b'hello'), rq(o1, b'GET', b'/three', extra=b'Connection: Keep-Alive\r\n')]
+        return live_conversation(port, [x[0] for x in r], [[x[1]] for x in r])
+    if name == 'forward-pipelined':
+        r = [rq(o1, b'GET', b'/p1'), rq(o1, b'PUT', b'/p2', b'abc'), rq(o1, b'GET', b'/p3')]
+        return live_conversation(port, [b''.join(x[0] for x in r)], [[x[1] for x in r]])
+    if name == 'forward-one-then-two':
+        r = [rq(o1, b'GET', b'/a'), rq(o1, b'POST', b'/b', b'xy'), rq(o1, b'DELETE', b'/c')]
+        return live_conversation(port, [r[0][0], r[1][0] + r[2][0]], [[r[0][1]], [r[1][1], r[2][1]]])
+    if name == 'forward-two-connections':      # two client connections served by the same worker, each to its own origin
+        for o in (o1, o2):
+            r = [rq(o, b'GET', b'/x'), rq(o, b'GET', b'/y')]
+            p = live_conversation(port, [x[0] for x in r], [[x[1]] for x in r])
+            if p:
+                return 'origin %d: %s' % (o.port, p)
+        return None
+    if name == 'web-sequential':
+        return live_conversation(port, [W % b'Connection: Keep-Alive\r\n', W % b'', W % b'connection: keep-alive\r\n'],
+                                 [[b'HTTP route response']] * 3)
+    if name == 'web-pipelined':
+        return live_conversation(port, [(W % b'') * 3], [[b'HTTP route response'] * 3])
+    raise ValueError(name)
+
+
+def run_live(names):
+    """{scenario: problem | None} through one real proxy instance"""
+    import proxy, socket, time
+    logging.disable(logging.NOTSET)
+    res = {}
+    o1, o2 = LiveOrigin(), LiveOrigin()
+    try:
+        with proxy.Proxy(['--hostname', '127.0.0.1', '--port', '0', '--num-acceptors', '1', '--num-workers', '1',
+                          '--log-level', 'CRITICAL', '--enable-web-server'], plugins=[b'proxy.plugin.WebServerPlugin']) as p:
+            port = p.flags.port
+            ok = False
+            for _ in range(25):      # the first connection can be accepted by the kernel before the workers are up
+                try:
+                    s = socket.create_connection(('127.0.0.1', port), timeout=1.0)
+                    s.settimeout(1.0)
+                    s.sendall(b'GET /warm-up HTTP/1.1\r\nHost: localhost\r\n\r\n')
+                    ok = bool(s.recv(65536))
+                    s.close()
+                except OSError:
+                    ok = False
+                if ok:
+                    break
+                time.sleep(0.2)
+            if not ok:
+                return {n: 'live proxy did not come up' for n in names}
+            for n in names:
+                try:
+                    res[n] = live_scenario(n, port, o1, o2)
+                except Exception as e:
+                    res[n] = 'live driver: %r' % e
+    finally:
+        o1.close(); o2.close()
+        logging.disable(logging.CRITICAL)
+    return res
+
+
 # ----------------------------------------------------------------- Coq terms
 def coq_event(ev):
     if ev[0] == 'c':
@@ -611,6 +840,8 @@ def coq_cfg(cfg):
 
 
 def coq_term(case, out):
+    if case.get('live'):
+        return None
     x = '(mkX %s %s %s %d %s)' % (
         C.coq_list(C.coq_pair(C.coq_bytes(h.encode()), '(%d)%%Z' % p) for h, p in out['connect_log']),
         C.coq_list(C.coq_bytes(u) for u in out['up']), C.coq_bytes(out['client']), out['status'], C.coq_bool(out['pending']))
@@ -699,6 +930,8 @@ def expected_tags(case, out):
 
 
 def oracle(case, out):
+    if case.get('live'):
+        return out.get('live_problem')
     reqs = case.get('requests') or []
     if case.get('expect_up') is not None:       # tunnels: what the upstream peers must have received
         if [bytes(u) for u in out['up']] != [bytes(u) for u in case['expect_up']]:
@@ -706,7 +939,11 @@ def oracle(case, out):
     if not reqs or case.get('kind') == 'malformed':
         return None
     exp = expected_tags(case, out)
-    complete = all(is_keepalive(r) for r in reqs[:-1]) and all(e is not None for e in exp)
+    # a request that is not keep-alive (Connection: close in any spelling, HTTP/1.0) legitimately ends the
+    # conversation after its response: requests up to and including it MUST be answered, later ones need not be
+    k = next((i for i, r in enumerate(reqs) if not is_keepalive(r)), None)
+    must = len(reqs) if k is None else k + 1
+    complete = all(e is not None for e in exp[:must])
     res, err = parse_responses(reqs, out['client'])
     if err:
         return 'client stream: ' + err
@@ -718,21 +955,23 @@ def oracle(case, out):
                 return 'request %d names no route but was answered %d by %r' % (i + 1, r['status'], r['headers'].get(b'x-route') or r['headers'].get(b'x-host'))
             continue
         alts = e if isinstance(e, list) else [e]
-        if not any(all(r['headers'].get(k) == v for k, v in a.items()) for a in alts):
-            got = {k.decode(): r['headers'].get(k) for k in alts[0]}
+        if not any(all(r['headers'].get(k_) == v for k_, v in a.items()) for a in alts):
+            got = {k_.decode(): r['headers'].get(k_) for k_ in alts[0]}
             return 'response %d is not the answer of what request %d names: expected %r, got %r' % (i + 1, i + 1, alts[0], got)
     if complete:
-        if len(res) != len(reqs):
-            return '%d requests, %d responses' % (len(reqs), len(res))
-        if out['status'] != 0 and is_keepalive(reqs[-1]):
-            return 'connection not usable after the conversation (status %d %s)' % (out['status'], out.get('raised'))
-        if out['pending']:
-            return 'a request is still waiting in the parser although every request was sent completely'
+        if len(res) < must:
+            return '%d requests must be answered (%d sent%s), %d responses' % (
+                must, len(reqs), '' if k is None else ', request %d ends the conversation' % (k + 1), len(res))
+        if k is None:
+            if out['status'] != 0:
+                return 'connection not usable after the conversation (status %d %s)' % (out['status'], out.get('raised'))
+            if out['pending']:
+                return 'a request is still waiting in the parser although every request was sent completely'
     # every origin got well-formed requests, each exactly once
-    for k, b in enumerate(out.get('origin_broken') or []):
+    for kk, b in enumerate(out.get('origin_broken') or []):
         if b:
-            return 'upstream %d received something that is not a request stream: %s' % (k, b)
-    if complete and case['mode'] == 'forward':
+            return 'upstream %d received something that is not a request stream: %s' % (kk, b)
+    if complete and k is None and case['mode'] == 'forward':
         got = sorted((bytes(m), bytes(t)) for o in out['origin_requests'] for m, t, n in o)
         want = sorted((r['method'], named_origin(r)[2]) for r in reqs)
         if got != want:
@@ -741,6 +980,8 @@ def oracle(case, out):
 
 
 def nontrivial(case, out):
+    if case.get('live'):
+        return out.get('live_problem') is None
     res, err = parse_responses(case.get('requests') or [], out['client']) if case.get('requests') else ([], None)
     return len(res) >= 2 or (case.get('kind') == 'malformed' and len(out.get('events', [])) >= 2)
 
@@ -825,5 +1066,12 @@ def extra_checks(rng, tier):
             f = oracle(case, out)
             if f and len(fails) < 3:
                 fails.append(dict(case=case, out=out, what=f))
-    return dict(failures=fails, notes=['all-packings sweep on the implementation: %d packings of %d conversations' % (n, len(convs))],
-                packings_swept=n)
+    notes = ['all-packings sweep on the implementation: %d packings of %d conversations' % (n, len(convs))]
+    live = run_live(LIVE_SCENARIOS)
+    for name, problem in live.items():
+        if problem:
+            case = dict(kind='live/' + name, live=name, mode='live', requests=[], script=[])
+            fails.append(dict(case=case, out=dict(live_problem=problem, events=[]), what='live run through the real executor, %s: %s' % (name, problem)))
+    notes.append('live keep-alive conversations through a real proxy.Proxy (1 acceptor, 1 threadless worker) on loopback: %d scenarios, %d failed'
+                 % (len(live), sum(1 for v in live.values() if v)))
+    return dict(failures=fails, notes=notes, packings_swept=n, live_scenarios=len(live))
